@@ -2,7 +2,8 @@
 // Exhaustive: every link up/down sequence of length 1..6 x {active, passive} x mock clock advance
 // 0/6/11 s after each event, each scenario against a fresh server (New, Start, AddInterface, device
 // events through device.MockServer, as the daemon does), in child processes so that a panic in a
-// bio-rd goroutine is attributed to its scenario.
+// bio-rd goroutine is attributed to its scenario. Also: link loss reported through every operational
+// state the device layer knows, and device events that race with PDUs being received.
 package main
 
 import (
@@ -33,6 +34,12 @@ func crashFeatures(c isish.Case) map[string]string {
 	if ic.Ghost {
 		f["_prefix"] = "iface-without-device:"
 	}
+	if len(ic.States) > 0 {
+		f["events"] = "oper-states"
+	}
+	if ic.Inflight != nil {
+		f["events"] = "raced-with-pdus"
+	}
 	return f
 }
 
@@ -41,9 +48,10 @@ func main() {
 		isish.ChildMain(runCase)
 	}
 	vf.Main("C33", "exploration", func(r *vf.Run) {
-		r.Rule("every sequence of link up / link down device events of length 1..6 on one IS-IS interface (126 sequences) x {active, passive} x {0, 6, 11} s of mock time after every event (so that the hello, PSNP and CSNP tickers fire in every interface state) = 756 scenarios, each on a fresh server built in the daemon's order (New, Start, AddInterface, device events via device.MockServer), executed in child processes. Oracles: no panic (recovered in the event call, or process death attributed through the batch protocol); GetAdjacencies/GetLSDB return after every event; after a final link up on an active interface a hello is sent on the ethernet handle the server currently holds within 2 hello intervals of mock time, and a neighbor sending valid hellos on that handle (real receive path) reaches Up. distinct_nontrivial = scenarios containing at least one up->down or down->up change. Clause prefix iface-without-device: = same with a second configured interface that never receives a device event (sample; reported separately because the statement speaks of event sequences)")
+		r.Rule("every sequence of link up / link down device events of length 1..6 on one IS-IS interface (126 sequences) x {active, passive} x {0, 6, 11} s of mock time after every event (so that the hello, PSNP and CSNP tickers fire in every interface state) = 756 scenarios, each on a fresh server built in the daemon's order (New, Start, AddInterface, device events via device.MockServer), executed in child processes. Oracles: no panic (recovered in the event call, or process death attributed through the batch protocol); GetAdjacencies/GetLSDB return after every event; after a final link up on an active interface a hello is sent on the ethernet handle the server currently holds within 2 hello intervals of mock time, and a neighbor sending valid hellos on that handle (real receive path) reaches Up. distinct_nontrivial = scenarios containing at least one up->down or down->up change. Clause prefix iface-without-device: = same with a second configured interface that never receives a device event (sample; reported separately because the statement speaks of event sequences). Link loss as the device layer reports it (RFC 2863 operational states; only IfOperUp is a usable link, delivered through a device.Updater of the harness): every sequence over {unknown, notPresent, down, lowerLayerDown, testing, dormant, up} of length 1..3 on an active interface (399; thorough 1..4) and 1..2 on a passive one (56; thorough 1..3) plus random sequences of length 4..8 (40; thorough 1500), same oracles, feature loss = the state that reported the most recent link loss. Device events racing with received PDUs (16 scenarios; thorough 200): 150 rounds of link up, 1..4 PDUs of a neighbor (hellos in the three adjacency states, LSP, CSNP, PSNP) put into the socket, 0..30 scheduler yields, link loss (down or another non-up state) reported without waiting for the receiver; every device event must return (clause event-hang: watchdog of 15 s on a call that takes microseconds, confirmed by replays in fresh processes; detail lists the goroutines inside the IS-IS server), then link up with the hello and adjacency oracles; coverage counts in how many rounds a PDU was being processed / still queued when the loss was reported")
 		r.Assume("mock clock advanced in 1 s steps; after each step the harness yields until no tick is pending in a bio-rd goroutine and the adjacency table and the number of sent frames are unchanged over three reads",
 			"device events are delivered synchronously through device.MockServer (interface index 0)")
+		r.Watchdog("event-hang")
 		opts := isish.Opts{Workers: 8, Scratch: filepath.Join(os.TempDir(), "isis")}
 		if raw, ok := r.Replaying(); ok {
 			c := isish.ReplayCase(raw)
@@ -63,6 +71,25 @@ func main() {
 			ic.Ghost = true
 			cases = append(cases, isish.Case{Kind: "iface", Raw: isish.MustJSON(ic)})
 		}
+		// link loss reported through other operational states
+		stateCases := isish.IfaceStateCases(r.N(3, 4), false, 0)
+		stateCases = append(stateCases, isish.IfaceStateCases(r.N(2, 3), true, 0)...)
+		for i := 0; i < r.N(40, 1500); i++ {
+			stateCases = append(stateCases, isish.GenIfaceStateCase(r.RandN("c33-states", i)))
+		}
+		for _, ic := range stateCases {
+			cases = append(cases, isish.Case{Kind: "iface", Raw: isish.MustJSON(ic)})
+		}
+		r.Sample(map[string]any{"kind": "iface", "scenario": stateCases[len(stateCases)-1]})
+		// device events racing with PDUs being received
+		nRace := r.N(16, 200)
+		for i := 0; i < nRace; i++ {
+			ic := isish.GenInflightCase(r.RandN("c33-inflight", i), 150)
+			if i == 0 {
+				r.Sample(map[string]any{"kind": "iface", "scenario": ic})
+			}
+			cases = append(cases, isish.Case{Kind: "iface", Raw: isish.MustJSON(ic)})
+		}
 		for i := 0; i < len(cases) && i < 200; i += 67 {
 			r.Sample(map[string]any{"kind": cases[i].Kind, "scenario": json.RawMessage(cases[i].Raw)})
 		}
@@ -71,6 +98,15 @@ func main() {
 		r.Exhaustive(true)
 		r.Set("exhaustive_scenarios", nExh)
 		r.Set("ghost_scenarios", len(ghosts))
+		r.Set("oper_state_scenarios", len(stateCases))
+		r.Set("raced_scenarios", nRace)
 		r.Require("scenarios", int64(nExh/2))
+		r.Require("events_oper_lowerLayerDown", 100)
+		r.Require("events_oper_dormant", 100)
+		r.Require("events_oper_notPresent", 100)
+		r.Require("events_oper_unknown", 100)
+		r.Require("final_up_after_loss_lowerLayerDown", 10)
+		r.Require("inflight_rounds", int64(nRace*150/2))
+		r.Require("loss_events_with_pdu_being_processed", int64(nRace*5))
 	})
 }
